@@ -234,6 +234,15 @@ def uncheckedScopes (t : String) (mm : MM) : List Scope :=
             { kind := "literals", owner := e.name,
               ents := e.literals.map fun l => { fn := t ++ ".enum_literal_name", ident := l }, reported := false }
         else [])
+    -- `verify_<Name>` of the verification module for every constrained primitive: no structure check looks at
+    -- constrained primitives (golang: part of `derived-structures` below, together with the other types)
+    ++ (if t = "golang" then []
+        else
+          [ { kind := "derived-cprims", owner := [],
+              ents := mm.types.filterMap fun
+                | .cprim n => some { fn := funcFn t, ident := "verify_".toList.map (·.toNat) ++ n }
+                | _ => none,
+              reported := false } ])
     -- Java: the check compares `property_name`s, the generated members are `get…`/`set…` (`getter_name`)
     ++ (if t = "java" then
           mm.classes.map fun c =>
@@ -247,12 +256,14 @@ def uncheckedScopes (t : String) (mm : MM) : List Scope :=
               ents := (mm.enums.map fun e => { fn := "python.function_name", ident := e.name })
                 ++ (mm.classes.map fun c => { fn := "python.function_name", ident := c.name }), reported := false } ]
         else if t = "golang" then
-          [ -- `Verify<Name>` for every our type, constrained primitives included
+          [ -- `Verify<Name>` for every enumeration, constrained primitive and CONCRETE class
+            -- (`for cls in symbol_table.concrete_classes`: an abstract class gets none)
             { kind := "derived-structures", owner := [],
-              ents := mm.types.map fun
-                | .enum e => { fn := "golang.function_name", ident := e.name }
-                | .cprim n => { fn := "golang.function_name", ident := n }
-                | .cls c => { fn := "golang.function_name", ident := c.name }, reported := false },
+              ents := mm.types.filterMap fun
+                | .enum e => some { fn := "golang.function_name", ident := e.name }
+                | .cprim n => some { fn := "golang.function_name", ident := n }
+                | .cls c => if c.abstract then none else some { fn := "golang.function_name", ident := c.name },
+              reported := false },
             -- `<name>FromStringMap` … private names lower-case the first part
             { kind := "derived-enums-private", owner := [],
               ents := mm.enums.map fun e => { fn := "golang.private_function_name", ident := e.name }, reported := false } ]
